@@ -147,6 +147,19 @@ def inspected_child_instances(model, tier: str):
                     out.append(((k, nm.var(), ch), f"{k}<_,{ck}>"))
                 elif k in spec.NARY:
                     out.append(((k, [ch, nm.var()]), f"{k}<{ck},_>"))
+    # n-ary nodes with three and four children of one inspected class (e.g. several negated factors)
+    for k in names:
+        if k in spec.NARY:
+            x, y = ("Variable", "x"), ("Variable", "y")
+            for ck in mentioned_classes(model, k):
+                if ck in spec.UNARY:
+                    out.append(((k, [(ck, x), (ck, y), (ck, x)]), f"{k}<3x{ck}>"))
+                    out.append(((k, [(ck, x), (ck, y), (ck, y), (ck, x)]), f"{k}<4x{ck}>"))
+                    out.append(((k, [(ck, x), y, (ck, y), (ck, x)]), f"{k}<3x{ck},_>"))
+                elif ck in ("NthPower", "NthRoot"):
+                    out.append(((k, [(ck, x, 2), (ck, y, 2), (ck, x, 3)]), f"{k}<3x{ck}>"))
+                elif ck in ("Exponential", "Logarithm"):
+                    out.append(((k, [(ck, x, 2), (ck, y, 2), (ck, x, E)]), f"{k}<3x{ck}>"))
     # the same object in two argument positions
     for kind, _nh in PARTIAL_CHILD:
         pc = partial_child(kind, ["p", "q"])
@@ -244,6 +257,18 @@ def eval_case(args):
     def thunk(it):
         e = build(it, tree, {})
         p = make_point(it, val)
+        if api == "at-after-other":
+            # the same object was evaluated before at another point (and possibly failed there)
+            from .interp import InterpRaise as _IR
+            far = IV(1.0, math.inf, True, True)
+            near = IV(-math.inf, -1.0, True, True)
+            other = {k: (near if iv == far else far) for k, iv in val.items()}
+            for prev in (other, {k: IV.point(0.0) for k in val}):
+                try:
+                    it.call(it.getattr(e, "at"), [make_point(it, prev)], {})
+                except _IR:
+                    pass
+            return it.call(it.getattr(e, "at"), [p], {})
         if api == "number":
             (name,) = list(val) or ["x"]
             return it.call(it.getattr(e, "at"), [leaf_value(name, val[name])], {})
